@@ -185,6 +185,9 @@ def slice_match(text, scrut, keep, fn_id, log):
     return text[:b0 + 1] + "\n" + ",\n".join(out) + ",\n" + text[b1:]
 
 
+BASELINE_OUT = {}
+
+
 class Group:
     def __init__(self, name, features=None, disabled_hints=None, extra_items=None):
         self.name = name
@@ -197,6 +200,7 @@ class Group:
         self.lost = []         # lost optional anchors
         self.global_rewrites = []  # (regex, repl)
         self.extra_items = list(extra_items or [])
+        self.reanchored = []
         self.srcs = {}
         self.trusted = []      # names of assumed items (external_body / assume_specification) collected later
         self.spec_hash = hashlib.sha256()
@@ -528,6 +532,8 @@ class Group:
         fn_id = "%s :: %s" % (relf, ipath)
         log = []
         raw = it.text
+        if os.environ.get("VX_WRITE_BASELINE"):
+            BASELINE_OUT[fn_id] = raw
         text = self.prep_text(raw, log)
         # --- collect directives
         ret = None
@@ -678,14 +684,19 @@ class Group:
                 else:
                     idx = [k for k, l in enumerate(blines) if anchor in _orig(l)]
                 if len(idx) <= occ:
-                    self.lost.append({"where": fn_id, "anchor": anchor})
-                    continue
-                k = idx[occ]
+                    k = self.reanchor(fn_id, anchor, occ, d.startswith("before"), blines, subs, loops, tmpl, _orig)
+                    if k is None:
+                        self.lost.append({"where": fn_id, "anchor": anchor, "kind": "hint"})
+                        continue
+                    self.reanchored.append({"where": fn_id, "anchor": anchor, "to_body_line": k})
+                    log.append({"rule": "hint-reanchored-by-diff", "anchor": anchor[:80]})
+                else:
+                    k = idx[occ]
                 if om:
                     anchor = anchor + "@@%d" % occ
                 hkey = "%s @ %s" % (fn_id, anchor)
                 if hkey in self.disabled_hints:
-                    self.lost.append({"where": fn_id, "anchor": anchor, "why": "hint does not type-check on this tree"})
+                    self.lost.append({"where": fn_id, "anchor": anchor, "kind": "hint", "why": "hint does not type-check on this tree"})
                     continue
                 self.hint_keys.append(hkey)
                 marker = "/*VXHINT %d*/ " % (len(self.hint_keys) - 1) + " ".join(txt.split("\n"))
@@ -721,6 +732,117 @@ class Group:
                                "lines": raw.count("\n") + 1,
                                "sha256": hashlib.sha256(raw.encode()).hexdigest()})
         self.rewrites += [dict(x, item=fn_id) for x in log]
+
+    # ------------------------------------------------------------------ baseline texts and diff-following anchors
+    _baseline = None
+
+    def baseline_text(self, fn_id):
+        if Group._baseline is None:
+            bp = os.path.join(VERIF, "baseline", "functions.json")
+            try:
+                Group._baseline = json.load(open(bp))
+            except Exception:
+                Group._baseline = {}
+        return Group._baseline.get(fn_id)
+
+    def transformed_body(self, raw, subs, loops, fn_id, tmpl):
+        """The function body as it looks when the hints are attached (after cfg resolution, rewrite rules, the
+        function's own replace / slice directives and loop annotation), for an arbitrary version `raw` of the function.
+        Used for the BASELINE version: nothing is logged or recorded."""
+        saved = (self.lost, self.hint_keys, self.rewrites, self.clauses, self.byte_consts if hasattr(self, "byte_consts") else None)
+        self.lost, self.hint_keys, self.rewrites = [], list(self.hint_keys), []
+        self.clauses = {}
+        if saved[4] is not None:
+            self.byte_consts = dict(saved[4])
+        try:
+            log = []
+            text = self.prep_text(raw, log)
+            for d, arg, dl in subs:
+                if d in ("replace", "replace?", "replace*", "replace_re", "replace_re?"):
+                    text = self.apply_replace(d, arg, text, fn_id, log)
+                elif d == "slice_match":
+                    scrut, _, keep = arg.partition(" keep ")
+                    text = slice_match(text, scrut.strip(), [k.strip() for k in keep.split("|")], fn_id, log)
+            m = mask(text)
+            kw = re.search(r"\bfn\b", m)
+            p0 = m.index("(", kw.end())
+            g = re.match(r"\s*\w+\s*<", m[kw.end():])
+            if g:
+                a1 = match_angle(m, kw.end() + g.end() - 1)
+                p0 = m.index("(", a1)
+            p1 = match_close(m, p0)
+            b0 = find_body_open(m, p1 + 1)
+            b1 = match_close(m, b0)
+            body = text[b0 + 1:b1]
+            body = self.annotate_loops(body, loops, fn_id, tmpl, log)
+            return body
+        except Exception as e:
+            if os.environ.get("VX_SHOW_DROPPED"):
+                import traceback
+                traceback.print_exc()
+            return None
+        finally:
+            self.lost, self.hint_keys, self.rewrites, self.clauses = saved[0], saved[1], saved[2], saved[3]
+            if saved[4] is not None:
+                self.byte_consts = saved[4]
+
+    def reanchor(self, fn_id, anchor, occ, before, cur_lines, subs, loops, tmpl, orig_fn):
+        """Anchors follow the diff: the line the anchor names in the BASELINE version of the function is mapped through
+        a line diff to the corresponding position of the current version."""
+        import difflib
+        raw0 = self.baseline_text(fn_id)
+        if not raw0:
+            return None
+        body0 = self.transformed_body(raw0, subs, loops, fn_id, tmpl)
+        if body0 is None:
+            return None
+        b0 = [l.rstrip() for l in body0.split("\n")]
+        if anchor.startswith("re:"):
+            idx = [k for k, l in enumerate(body0.split("\n")) if re.search(anchor[3:], l)]
+        else:
+            idx = [k for k, l in enumerate(body0.split("\n")) if anchor in l]
+        if len(idx) <= occ:
+            return None
+        kb = idx[occ]
+        c0 = [orig_fn(l).rstrip() for l in cur_lines]
+        sm = difflib.SequenceMatcher(None, b0, c0, autojunk=False)
+        def boundary_after(k):
+            # a hint goes AFTER line k only if that line ends a statement / opens or closes a block
+            while k < len(c0) - 1 and not re.search(r"[;{}]\s*(//.*)?$", c0[k]):
+                k += 1
+            return k
+        def boundary_before(k):
+            while k > 0 and not re.search(r"[;{}]\s*(//.*)?$", c0[k - 1]):
+                k -= 1
+            return k
+        def depths(lines):
+            # brace depth AFTER each line (string / comment contents are rare in these bodies; approximate count)
+            out, dep = [], 0
+            for l in lines:
+                l2 = re.sub(r'"(?:[^"\\\\]|\\\\.)*"', '""', l.split("//")[0])
+                dep += l2.count("{") - l2.count("}")
+                out.append(dep)
+            return out
+        db, dc = depths(b0), depths(c0)
+        want = (db[kb - 1] if kb > 0 else 0) if before else db[kb]
+        def ok_after(k):
+            return 0 <= k < len(c0) and dc[k] == want and re.search(r"[;{}]\s*$", c0[k].split("//")[0].rstrip()) is not None
+        def ok_before(k):
+            return 0 <= k < len(c0) and (dc[k - 1] if k > 0 else 0) == want and (k == 0 or re.search(r"[;{}]\s*$", c0[k - 1].split("//")[0].rstrip()) is not None)
+        def nearest(k, ok):
+            for delta in range(0, len(c0) + 1):
+                for cand in (k - delta, k + delta):
+                    if ok(cand):
+                        return cand
+            return None
+        for tag, i1, i2, j1, j2 in sm.get_opcodes():
+            if i1 <= kb < i2:
+                if tag == "equal":
+                    return j1 + (kb - i1)
+                if before:
+                    return nearest(min(j1, len(c0) - 1), ok_before)
+                return nearest(max(min(j2 - 1, len(c0) - 1), 0) if j2 > j1 else max(j1 - 1, 0), ok_after)
+        return None
 
     def annotate_loops(self, body, loops, fn_id, tmpl, log):
         if not loops:
